@@ -251,7 +251,7 @@ def submit_generators(ctx, quick, gen):
     #      on: relative name, 1-2 search domains, search flag / use_search_by_default, every outcome per query
     gen("Gen_Resolution", gen_cfg(ctx, "g10.cfg", next="GNextName", emit="EmitName", configs="GCfgNameQ" if quick else "GCfgName",
                                   requests="GReqNameQ" if quick else "GReqName", outcomes="GOutName",
-                                  advances="GAdvZero" if quick else "GAdvSmall", maxres=2, maxq=3))
+                                  advances="GAdvSmall", maxres=2, maxq=2 if quick else 3))
     # G4: one and three servers, every way of failing
     gen("Gen_Resolution", gen_cfg(ctx, "g4.cfg", configs="GCfgThree" if quick else "GCfgOneThree",
                                                       requests="GReqAbs", outcomes="GOutFail10" if quick else "GOutFailing",
